@@ -1,5 +1,5 @@
 SPECIFICATION Spec
-CONSTANT Inputs <- C08Quick
+CONSTANT InputSeq <- SeqFromFile
 CONSTANT Hosts <- HostsOne
 INVARIANT DetOrKnown
 INVARIANT Partition
